@@ -11,14 +11,61 @@ E1_NOTE = ("Trusted base: testing/synctest quiescence and fake clock; the 20-lin
            "granularity of instrumented yield points (locks incl. release, channel operations, select cases, spawns, transport calls, application calls, "
            "user Marshal/Unmarshal). Schedules, programs, configurations and fault plans are sampled, not enumerated.")
 
+def e1(text, ref, tech, cat="exploration"):
+    return ("rpc-sim", cat, text, ref, tech, E1_NOTE)
+
 CLAIMED = {
     # id: (engine, category, text, design_ref, technique, note)
-    "C01": ("rpc-sim", "exploration",
-            "Seeded deterministic simulation of the real drpcconn<->drpcserver stack over a simulated byte-stream network: every message returned by MsgRecv is "
+    "C01": e1("Seeded deterministic simulation of the real drpcconn<->drpcserver stack over a simulated byte-stream network: every message returned by MsgRecv is "
             "compared with ground truth (per-stream prefix, exactly-once, byte integrity), every successful auto-flush send is checked to be completely on the "
             "wire at return, and clean half-closed streams must deliver everything then io.EOF. Sampling over sizes, split/buffer/flush/cancel configurations, "
-            "chunking, back-pressure and lock-granularity interleavings of concurrent senders/receivers; not a proof.",
-            "DESIGN.md §8 C01", "deterministic simulation with seeded schedules and transport chunking/back-pressure; omniscient delivery oracle", E1_NOTE),
+            "chunking, back-pressure and lock-granularity interleavings of concurrent senders/receivers/closers; not a proof.",
+            "DESIGN.md §8 C01", "deterministic simulation: seeded schedules + transport chunking/back-pressure; omniscient delivery oracle"),
+    "C02": e1("Same simulated stack with 1-3 client goroutines issuing up to 6 rpcs on one connection while earlier rpcs are cancelled, closed, failed or abandoned at "
+            "scheduler-chosen instants and their late packets are delayed into later rpcs. Oracles: every message/response/error/metadata observed by rpc k "
+            "belongs to rpc k; a clean rpc on a connection that stayed alive completes fully (no foreign EOF/cancel); a handler runs at most once per rpc.",
+            "DESIGN.md §8 C02", "deterministic simulation: seeded schedules, delayed delivery, soft/hard cancel; attribution oracle on tagged messages"),
+    "C04": e1("Cancellation fired by a separate task at a scheduler-chosen instant while 1-4 operations of the rpc are in flight (incl. sends parked in a stalled or "
+            "back-pressured transport, closers waiting behind them). At global quiescence (exact: nothing is runnable, no timer pending) no client call of the "
+            "cancelled rpc may still be in flight; calls blocked at the instant of cancel must report the context error; later calls fail; the connection is closed "
+            "or the probe rpc works; the peer handler is released once the cancel/disconnect has been consumed. Two genuine defects are listed as known findings.",
+            "DESIGN.md §8 C04", "deterministic simulation with exact blocked-forever census at quiescence; stall/back-pressure faults; both cancel modes"),
+    "C05": e1("For every base program the fault-free twin run is executed, its transport calls are numbered per endpoint, and the k-th call of each endpoint is failed "
+            "for every k in five ways (read error, read error attached to data, write error after a partial write, peer close, local close; fail-stop endpoint). "
+            "Oracles: nothing stays inside a call, both sides report closed, later rpcs fail, everything delivered is a correct prefix of its own stream, no panic.",
+            "DESIGN.md §8 C05", "deterministic simulation with exhaustive enumeration of the fault position over sampled programs/schedules", "fault_enumeration"),
+    "C06": e1("Histories of 1-4 ill-behaved rpcs (handlers/clients stopping early, errors, soft cancel at any instant incl. before the invoke is written, healed stalls) "
+            "are driven to quiescence; if every rpc has ended on both sides and the connection does not report closed, a probe rpc must reach its handler and "
+            "return its response. Found and repaired D2 and D3.",
+            "DESIGN.md §8 C06", "deterministic simulation; probe rpc after global quiescence; exact hang census"),
+    "C07": e1("A passive monitor parses every buffer handed to Transport.Write with an independent reference frame parser under 2-4 tasks hammering one connection "
+            "(multi-frame sends, flushes, closers, cancellers, next-rpc starters, writes parked by back-pressure): ids never decrease, one kind per id, no frame after "
+            "the final frame of an id, no trailing partial frame on a healthy connection, never two Writes or two Reads in flight. Found and repaired D8.",
+            "DESIGN.md §8 C07", "deterministic simulation; runtime wire invariant checked by an independent reference parser"),
+    "C10": e1("All four rpc shapes through the real drpcmux with handler errors of arbitrary text (empty, binary, 90 KiB), codes (0,1,2^63,2^64-1) attached at wrapping "
+            "depth 0-5 via Unwrap/Cause/errs.Wrap, plus unknown-rpc failures; the client's failing call must carry exactly that text and code after receiving the "
+            "messages sent before it; successful handlers never yield an error; the probe rpc works afterwards. Found and repaired D10.",
+            "DESIGN.md §8 C10", "deterministic simulation; error text/code compared with ground truth under all delivery schedules"),
+    "C11": e1("2-6 calls per connection with none/empty/1-4 pairs of metadata (empty, binary, 4 KiB strings) abandoned at every point incl. between metadata and invoke: "
+            "handler k sees exactly call k's map; every invoke-metadata packet on the wire is the canonical protobuf encoding of map<string,string>=1 of some call "
+            "(independent reference codec). The pure round-trip-for-all-maps / decode-arbitrary-bytes clause is exercised only through generated maps and the "
+            "hostile payloads of C13 (stated partial scope).",
+            "DESIGN.md §8 C11, §9", "deterministic simulation; per-call attribution + wire-format oracle with reference protobuf codec"),
+    "C12": e1("For every base program the close-free twin is run and a close/cancel is injected at an exact director step s for every 3rd (thorough: every) s: Conn.Close, "
+            "two concurrent Conn.Close, cancel of Serve's/ServeOne's context, transport closed underneath, listener failure. Oracles at quiescence: Close returned, "
+            "each transport closed exactly once by the library, nothing stays inside a call, later rpcs fail, stream contexts done, Serve returns with no goroutine of "
+            "its connections still blocked, and after teardown every library goroutine has exited (leak census).",
+            "DESIGN.md §8 C12", "deterministic simulation with enumeration of the close position over sampled programs/schedules; goroutine leak census", "fault_enumeration"),
+    "C13": e1("A byzantine man-in-the-middle rewrites bytes in flight inside live sessions: bit flips, garbage, well-formed hostile frames (any kind, control bit, stream "
+            "ids 0/current±1/2^64-1, huge message ids), over-long varints, frames announcing up to 2^61 bytes followed by 400 KB floods, hostile error/metadata "
+            "payloads. Oracles: no task panics; the reader never offers the transport a buffer beyond 4x maximum + 64 KiB. The drpchttp entry points are pure and "
+            "NOT decided (stated partial scope).",
+            "DESIGN.md §8 C13, §9", "deterministic simulation with byzantine byte/frame injection; panic and memory-bound oracles"),
+    "C18": e1("(a) the released v0.0.17 drpcwire reader (vendored verbatim, telemetry removed) is attached as a second consumer to everything either endpoint emits in "
+            "every run and must decode the same packets as the reference parser minus control-bit ones; the released gogo-protobuf metadata decoder must accept "
+            "emitted UTF-8 metadata; (c) a renumbering proxy interleaves unknown control packets (kinds 8-63, 1-2 frames) into live streams and delivery, "
+            "completeness and error oracles must still hold. (b) old-writer -> new-reader is decided by the reader-chunk engine. Full old-endpoint interop is not decided.",
+            "DESIGN.md §8 C18, §9", "deterministic simulation; differential check against the released v0.0.17 codec; unknown-control-packet injection"),
 }
 
 NOT_YET = "check under construction in this round; will be claimed once its oracle has been validated on the unchanged tree"
@@ -38,6 +85,8 @@ def main():
         if pid not in CLAIMED:
             continue
         engine, cat, text, ref, tech, note = CLAIMED[pid]
+        if cat not in ("exploration", "fault_enumeration"):
+            raise SystemExit("bad category")
         checks.append({
             "property_id": pid,
             "quick_cmd": "./check %s quick" % pid,
